@@ -34,16 +34,28 @@ Data1 == {V("h1"), V("h2"), V("h3"), V("h4"), V("d1"), V("d2"), V("d3"), V("s1")
 Unary == {"len", "str", "keys", "values", "items", "sum", "min", "max", "sorted", "reversed", "enumerate", "pretty", "join", "list",
           "lower", "upper", "strip", "abs", "int", "round", "floor", "ceil", "dict", "split"}
 
-Progs ==
-    {NCode(<<NCall(b, <<a>>)>>) : b \in NonMutators, a \in Args1}
-    \cup {NCode(<<NCall(b, <<a, c>>)>>) : b \in NonMutators, a \in Data1, c \in Args1}
-    \cup {NCode(<<NCall(b, <<a, c, e>>)>>) : b \in {"sorted", "get", "replace", "split"}, a \in Data1, c \in {Neg, Pick2, NVal(VNone), V("s1")},
-                                            e \in {NVal(VBool(TRUE)), V("n2"), V("s1")}}
-    \cup {NCode(<<NCall(b1, <<NCall(b2, <<a>>)>>)>>) : b1 \in Unary, b2 \in Unary, a \in Data1}
-
-Model == LET seq == SetToSeq(Progs) IN [n |-> Len(seq), tree |-> [i \in 1..Len(seq) |-> Number(seq[i], 1).t]]
-AllScenarios == [pi : 1..Model.n]
-C13Calls(s) == <<[tree |-> Model.tree[s.pi], nid |-> "n1", max |-> 500, ast |-> <<>>]>>
+\* index tables instead of sets of trees (TLC sorts every set it builds; sorting thousands of trees is slow)
+BSeq == SetToSeq(NonMutators)
+USeq == SetToSeq(Unary)
+ASeq == SetToSeq(Args1)
+DSeq == SetToSeq(Data1)
+B3Seq == <<"sorted", "get", "replace", "split">>
+C3Seq == <<Neg, Pick2, NVal(VNone), V("s1")>>
+E3Seq == <<NVal(VBool(TRUE)), V("n2"), V("s1")>>
+Mk(t) == Number(t, 1).t
+Model == [one |-> [b \in 1..Len(BSeq) |-> [a \in 1..Len(ASeq) |-> Mk(NCode(<<NCall(BSeq[b], <<ASeq[a]>>)>>))]],
+          two |-> [b \in 1..Len(BSeq) |-> [a \in 1..Len(DSeq) |-> [c \in 1..Len(ASeq) |-> Mk(NCode(<<NCall(BSeq[b], <<DSeq[a], ASeq[c]>>)>>))]]],
+          three |-> [b \in 1..4 |-> [a \in 1..Len(DSeq) |-> [c \in 1..4 |-> [e \in 1..3 |-> Mk(NCode(<<NCall(B3Seq[b], <<DSeq[a], C3Seq[c], E3Seq[e]>>)>>))]]]],
+          pipe |-> [b \in 1..Len(USeq) |-> [a \in 1..Len(USeq) |-> [c \in 1..Len(DSeq) |-> Mk(NCode(<<NCall(USeq[b], <<NCall(USeq[a], <<DSeq[c]>>)>>)>>))]]]]
+AllScenarios == [kind : {"one"}, b : 1..Len(BSeq), a : 1..Len(ASeq), c : {1}, e : {1}]
+                \cup [kind : {"two"}, b : 1..Len(BSeq), a : 1..Len(DSeq), c : 1..Len(ASeq), e : {1}]
+                \cup [kind : {"three"}, b : 1..4, a : 1..Len(DSeq), c : 1..4, e : 1..3]
+                \cup [kind : {"pipe"}, b : 1..Len(USeq), a : 1..Len(USeq), c : 1..Len(DSeq), e : {1}]
+TreeOf(s) == CASE s.kind = "one" -> Model.one[s.b][s.a]
+               [] s.kind = "two" -> Model.two[s.b][s.a][s.c]
+               [] s.kind = "three" -> Model.three[s.b][s.a][s.c][s.e]
+               [] s.kind = "pipe" -> Model.pipe[s.b][s.a][s.c]
+C13Calls(s) == <<[tree |-> TreeOf(s), nid |-> "n1", max |-> 500, ast |-> <<>>]>>
 C13Host(s) == [x \in {} |-> 0]
 C13Names0(s) == Names0
 C13Heap0(s) == Heap0
